@@ -246,7 +246,7 @@ class C05:
         return False, why
 
     # ------------------------------------------------------------------ R05.3
-    def check_bounds(self):
+    def check_bounds(self, full=True):
         ctx = self.ctx
         s = ctx.summ.of_func(OPS, "compute_bounds")
         g = ("param", s.params[0])
@@ -254,6 +254,34 @@ class C05:
         site = f"{s.module.relpath}:{s.node.lineno} compute_bounds"
         if len(s.returns) == 1 and s.returns[0].term == want:
             ctx.ok("R05.3", site, "returns geometry_to_shapely(geometry).bounds unmodified")
+            if not full:
+                return
+            # R05.6: shapely's `.bounds` of a polygon is the envelope of its EXTERIOR rings.  The statement says min / max "over its
+            # coordinates" for every geometry, polygons with holes included, and nothing in the Polygon / MultiPolygon validators
+            # keeps an interior ring inside its shell -- so for an accepted polygon whose hole pokes out, the bounds (and the
+            # features and positions derived from them) ignore coordinates of the geometry
+            m = ctx.models
+            ring_inside = False
+            for cname in ("Polygon", "MultiPolygon"):
+                ci = ctx.index.need_class(GEO, cname)
+                for v in m.validators(ci):
+                    try:
+                        vs = ctx.summ.of_func(v.owner.module.name, f"{v.owner.name}.{v.name}")
+                    except Exception:  # noqa: BLE001
+                        continue
+                    if any(x[0] == "call" and ((x[1][0] == "attr" and x[1][2] in ("contains", "within", "covers", "is_valid")) or
+                                               (x[1][0] == "ext" and x[1][1].split(".")[-1] in ("is_valid", "contains", "within", "covers", "make_valid")))
+                           for e in vs.events for x in walk(e.term)) or any(x[0] == "attr" and x[2] == "is_valid" for e in vs.events for t_ in (e.term, e.live) for x in walk(t_)):
+                        ring_inside = True
+            if ring_inside:
+                ctx.ok("R05.6", site, "the validators keep interior rings inside the shell: the envelope of the shell bounds every coordinate")
+            else:
+                ctx.bad("R05.6", s.module.relpath, "compute_bounds", "geometry_to_shapely(geometry).bounds (exterior-ring envelope) for polygons",
+                        "compute_bounds is shapely's `.bounds`, which for a Polygon / MultiPolygon is the envelope of the exterior rings only; no "
+                        "validator keeps an interior ring inside its shell, so for an accepted polygon whose hole reaches outside "
+                        "(Polygon([[[1,1],[3,1],[3,3],[1,3]], [[2,2],[4,2],[2,2.5]]]): bounds (1,1,3,3), coordinates reach t=4) the bounds are not "
+                        "min / max over its coordinates, and duration, bandwidth and every named position inherit the error", s.node.lineno,
+                        witness={"polygon": [[[1, 1], [3, 1], [3, 3], [1, 3]], [[2, 2], [4, 2], [2, 2.5]]], "bounds": [1, 1, 3, 3], "required": [1, 1, 4, 3]})
         else:
             ctx.bad("R05.3", s.module.relpath, "compute_bounds", "return shp_geom.bounds",
                     f"compute_bounds returns {show(s.returns[0].term)[:80] if s.returns else '-'} instead of the converted "
@@ -477,6 +505,19 @@ class C05:
             if p == "centroid":
                 want = ("sub", ("attr", ("attr", shp, "centroid"), "coords"), ("const", 0))
                 ok = val == want
+                if ok:
+                    # R05.7: the GEOS centroid is a weighted mean computed in doubles (and uses signed areas): on a zero-extent axis
+                    # it can come out 1-3 ulp off the only coordinate, and for a self-crossing ring (accepted by the validators)
+                    # outside the bounds altogether -- "the centroid lies inside the bounds" needs the value clamped into them
+                    ctx.bad("R05.7", file, "get_geometry_point", "return shp_geom.centroid.coords[0] (not clamped into the bounds)",
+                            "position 'centroid' returns the GEOS centroid as computed: for degenerate zero-extent geometries (LineString "
+                            "[[0,0.1],[0.1,0.1]]: frequency 0.10000000000000002 with low = high = 0.1) it lies 1-3 ulp outside the bounds, "
+                            "and for a self-crossing polygon the validators accept ([[0,0],[0,2],[1,0],[2,1]]) at (-0.333, 1.0), a negative "
+                            "time -- the statement requires the centroid inside the bounds for every geometry, zero-extent cases included",
+                            s.node.lineno, witness={"geometry": "LineString [[0,0.1],[0.1,0.1]]", "centroid_frequency": 0.10000000000000002, "bounds": [0, 0.1, 0.1, 0.1]})
+                elif val[0] == "tuple" and all(any(y == want for y in walk(c_)) and c_[0] == "call" and c_[1] in (("builtin", "min"), ("builtin", "max")) for c_ in val[1]):
+                    ctx.ok("R05.7", site, "centroid clamped into the bounds")
+                    ok = True
             elif p == "point_on_surface":
                 w1 = ("sub", ("attr", ("call", ("ext", "shapely.point_on_surface"), (shp,), ()), "coords"), ("const", 0))
                 w2 = ("sub", ("attr", ("call", ("attr", shp, "representative_point"), (), ()), "coords"), ("const", 0))
@@ -516,7 +557,7 @@ def run_conversion_subset(ctx: Ctx):
         ctx.rule("R05.3", "compute_bounds == converted shape's bounds", 1)
         c = C05(ctx)
         c.check_conversion()
-        c.check_bounds()
+        c.check_bounds(full=False)
 
 
 def run(ctx: Ctx):
@@ -525,6 +566,8 @@ def run(ctx: Ctx):
     ctx.rule("R05.3", "compute_bounds == converted shape's bounds", 1)
     ctx.rule("R05.4", "each feature value is the expression its term names, required term set per type", 33)
     ctx.rule("R05.5", "every named position evaluates to the specified point of the bounds", 13)
+    ctx.rule("R05.6", "bounds cover every coordinate of polygons (interior rings included)", 1)
+    ctx.rule("R05.7", "the centroid is kept inside the bounds", 1)
     c = C05(ctx)
     if len(c.names) != 9:
         ctx.note(f"{len(c.names)} geometry classes discovered (9 at the pinned commit)")
